@@ -85,7 +85,11 @@ func (x *Exec) callStatic(bc *blockCtx, in ssa.Instruction, f *ssa.Function, bin
 func (x *Exec) havocCall(bc *blockCtx, sig *types.Signature, name string, heaps bool) *Val {
 	if heaps {
 		for k := range x.heapSorts {
+			old := x.getHeap(bc.st, k)
 			bc.st.heaps[k] = x.b.Fresh(k+"_after_"+shortFn(name), x.heapSorts[k])
+			if k == "G_alloc" {
+				x.axiom(x.b.Cmp(">=", bc.st.heaps[k], old))
+			}
 		}
 		x.havocAllOnCall = true
 	}
@@ -244,7 +248,11 @@ func (x *Exec) applyContract(bc *blockCtx, in ssa.Instruction, f *ssa.Function, 
 	if !fc.Pure {
 		if fc.Assigns == "" {
 			for k := range x.heapSorts {
+				old := x.getHeap(bc.st, k)
 				bc.st.heaps[k] = x.b.Fresh(k+"_after_"+shortFn(name), x.heapSorts[k])
+				if k == "G_alloc" {
+					x.axiom(x.b.Cmp(">=", bc.st.heaps[k], old))
+				}
 			}
 			x.havocAllOnCall = true
 		} else {
